@@ -13,7 +13,7 @@ CBMC = {}
 
 # h and l in a right-to-left line (used by C07 and C17)
 _motions_rtl = {'name': 'motions_rtl_line', 'harness': 'c07_mot.c', 'units': 'ALL', 'defs': {'NMOT': 39, 'ORDERON': 1, 'BUFSEL': 3, 'MOTMASK': '0x17ULL'},
-                'expect_reach': ['end', 'asserted'], 'timeout': {'quick': 280, 'thorough': 900}, 'max_steps': 60000000, 'validate': {'quick': 4, 'thorough': 8}}
+                'expect_reach': ['end', 'asserted'], 'timeout': {'quick': 280, 'thorough': 600}, 'max_steps': 60000000, 'validate': {'quick': 4, 'thorough': 8}}
 
 # ---------------------------------------------------------------- C16
 META['C16'] = {
@@ -28,7 +28,7 @@ JOBS['C16'] = [
     # the regex engine's private decoders and its stepping over the line: bracket patterns with multi-byte members
     {'name': 'regex_offsets_utf8', 'harness': 'c10_re.c', 'units': ['rset', 'regex', 'sbuf', 'uc'], 'track': 're_rec',
      'defs': {'quick': {'LL': 2, 'TSET': 1, 'MB': 1}, 'thorough': {'LL': 3, 'TSET': 1, 'MB': 1}},
-     'expect_reach': ['end', 'found', 'notfound', 'agree'], 'timeout': {'quick': 280, 'thorough': 900}, 'max_steps': 5000000},
+     'expect_reach': ['end', 'found', 'notfound', 'agree'], 'timeout': {'quick': 280, 'thorough': 600}, 'max_steps': 5000000},
 ]
 
 # ---------------------------------------------------------------- C12
@@ -57,14 +57,14 @@ META['C11'] = {
 JOBS['C11'] = [
     {'name': 'short_patterns', 'harness': 'c11_pat.c', 'units': ['rstr', 'rset', 'regex', 'sbuf', 'uc'],
      'defs': {'quick': {'PN': 3}, 'thorough': {'PN': 4}}, 'split_depth': 9, 'nslices': {'quick': 32, 'thorough': 64},
-     'expect_reach': ['end', 'compiled', 'rejected', 'matched'], 'timeout': {'quick': 280, 'thorough': 900}, 'max_steps': 3000000, 'native_timeout': 5},
+     'expect_reach': ['end', 'compiled', 'rejected', 'matched'], 'timeout': {'quick': 280, 'thorough': 600}, 'max_steps': 3000000, 'native_timeout': 5},
     {'name': 'free_byte', 'harness': 'c11_pat.c', 'units': ['rstr', 'rset', 'regex', 'sbuf', 'uc'], 'tiers': ['thorough'],
      'defs': {'PN': 3}, 'variants': [{'FREEBYTE': 0}, {'FREEBYTE': 1}, {'FREEBYTE': 2}], 'split_depth': 5, 'nslices': 16,
      'expect_reach': ['end', 'compiled'], 'timeout': 1700, 'max_steps': 3000000, 'native_timeout': 5},
     {'name': 'repetition', 'harness': 'c11_rep.c', 'units': ['rset', 'regex', 'sbuf', 'uc'],
      'defs': {'quick': {}, 'thorough': {'FULL': 140}},
      'variants': [{'TMPL': t} for t in range(9)], 'split_depth': 2, 'nslices': {'quick': 4, 'thorough': 16},
-     'expect_reach': ['end'], 'timeout': {'quick': 280, 'thorough': 900}},
+     'expect_reach': ['end'], 'timeout': {'quick': 280, 'thorough': 600}},
 ]
 
 # ---------------------------------------------------------------- C04
@@ -77,15 +77,15 @@ META['C04'] = {
 JOBS['C04'] = [
     {'name': 'lbuf_history_text', 'harness': 'c04_hist.c', 'units': ['lbuf', 'sbuf', 'uc'],
      'defs': {'quick': {'K': 2, 'TL': 3}, 'thorough': {'K': 3, 'TL': 2}},
-     'expect_reach': ['end', 'edit', 'undo', 'undo-at-start', 'redo-at-end'], 'timeout': {'quick': 280, 'thorough': 900}},
+     'expect_reach': ['end', 'edit', 'undo', 'undo-at-start', 'redo-at-end'], 'timeout': {'quick': 280, 'thorough': 600}},
     {'name': 'long_history', 'harness': 'c04_big.c', 'units': 'ALL', 'defs': {'quick': {'NL': 140}, 'thorough': {'NL': 300}},
      'expect_reach': ['end', 'compound', 'single'], 'max_steps': 400000000},
     {'name': 'ex_steps', 'harness': 'c04_ex.c', 'units': 'ALL',
      'defs': {'quick': {'PAIRS_DIAGONAL': 1}, 'thorough': {}},
-     'expect_reach': ['end', 'B-changed', 'both-changed'], 'timeout': {'quick': 280, 'thorough': 900}},
+     'expect_reach': ['end', 'B-changed', 'both-changed'], 'timeout': {'quick': 280, 'thorough': 600}},
     {'name': 'lbuf_history_deep', 'harness': 'c04_hist.c', 'units': ['lbuf', 'sbuf', 'uc'],
      'defs': {'quick': {'K': 3, 'SMALL': 1, 'NOPS': 7}, 'thorough': {'K': 4, 'SMALL': 1, 'NOPS': 7}},
-     'expect_reach': ['end', 'edit', 'undo', 'redo', 'undo-at-start', 'redo-at-end', 'history-cleared', 'noop'], 'timeout': {'quick': 280, 'thorough': 900}},
+     'expect_reach': ['end', 'edit', 'undo', 'redo', 'undo-at-start', 'redo-at-end', 'history-cleared', 'noop'], 'timeout': {'quick': 280, 'thorough': 600}},
 ]
 
 # ---------------------------------------------------------------- C01
@@ -102,7 +102,7 @@ JOBS['C01'] = [
      'defs': {'quick': {'MODE': 0, 'N': 4}, 'thorough': {'MODE': 0, 'N': 6}}, 'expect_reach': ['end', 'whole']},
     {'name': 'boundary_lengths', 'harness': 'c01_rt.c', 'units': ['lbuf', 'sbuf', 'uc'], 'heavy': True,
      'defs': {'quick': {'MODE': 1, 'NL': 2, 'RANGE': 0}, 'thorough': {'MODE': 1, 'NL': 3, 'RANGE': 1}}, 'expect_reach': ['end', 'whole'],
-     'timeout': {'quick': 280, 'thorough': 900}},
+     'timeout': {'quick': 280, 'thorough': 600}},
     {'name': 'line_table_growth', 'harness': 'c01_rt.c', 'units': ['lbuf', 'sbuf', 'uc'],
      'defs': {'MODE': 2}, 'expect_reach': ['end', 'whole'], 'max_steps': 200000000},
     _write_all_c01,
@@ -119,7 +119,7 @@ META['C03'] = {
 JOBS['C03'] = [
     {'name': 'write_faults', 'harness': 'c03_wr.c', 'units': 'ALL',
      'defs': {'quick': {'NF': 1, 'NSHAPES': 5}, 'thorough': {'NF': 2, 'NSHAPES': 5}},
-     'expect_reach': ['end', 'foreign-guard', 'newer-guard', 'fault', 'shorts-only', 'clean'], 'timeout': {'quick': 280, 'thorough': 900}},
+     'expect_reach': ['end', 'foreign-guard', 'newer-guard', 'fault', 'shorts-only', 'clean'], 'timeout': {'quick': 280, 'thorough': 600}},
     {'name': 'two_faults', 'harness': 'c03_wr.c', 'units': 'ALL', 'tiers': ['quick'],
      'defs': {'NF': 2, 'NSHAPES': 4, 'CMDMASK': '0x11', 'SHAPEMASK': '0xa', 'KINDS': 5},
      'expect_reach': ['end', 'fault', 'shorts-only'], 'timeout': 280},
@@ -139,21 +139,21 @@ META['C20'] = dict(META['C02'])
 JOBS['C02'] = [
     {'name': 'buffer_histories', 'harness': 'c02_bufs.c', 'units': _bufs_units,
      'defs': {'quick': {'K': 2, 'NFILES': 3}, 'thorough': {'K': 3, 'NFILES': 3}},
-     'expect_reach': ['end', 'quit-refused', 'quit-allowed', 'switch-refused', 'switched', 'revisited'], 'timeout': {'quick': 280, 'thorough': 900}},
+     'expect_reach': ['end', 'quit-refused', 'quit-allowed', 'switch-refused', 'switched', 'revisited'], 'timeout': {'quick': 280, 'thorough': 600}},
 ]
 JOBS['C02'].append(
     {'name': 'unnamed_first_write', 'harness': 'c02_unnamed.c', 'units': 'ALL', 'defs': {}, 'expect_reach': ['end', 'partial', 'whole']})
 JOBS['C02'].append(
     {'name': 'full_table', 'harness': 'c02_bufs.c', 'units': _bufs_units,
      'defs': {'quick': {'K': 1, 'NFILES': 17, 'PREOPEN': 16}, 'thorough': {'K': 2, 'NFILES': 17, 'PREOPEN': 16}},
-     'expect_reach': ['end', 'table-full', 'quit-refused'], 'timeout': {'quick': 280, 'thorough': 900}})
+     'expect_reach': ['end', 'table-full', 'quit-refused'], 'timeout': {'quick': 280, 'thorough': 600}})
 JOBS['C20'] = [
     {'name': 'buffer_histories', 'harness': 'c02_bufs.c', 'units': _bufs_units,
      'defs': {'quick': {'K': 2, 'NFILES': 3}, 'thorough': {'K': 3, 'NFILES': 3}},
-     'expect_reach': ['end', 'quit-refused', 'quit-allowed', 'switch-refused', 'switched', 'revisited'], 'timeout': {'quick': 280, 'thorough': 900}},
+     'expect_reach': ['end', 'quit-refused', 'quit-allowed', 'switch-refused', 'switched', 'revisited'], 'timeout': {'quick': 280, 'thorough': 600}},
     {'name': 'full_table', 'harness': 'c02_bufs.c', 'units': _bufs_units,
      'defs': {'quick': {'K': 2, 'NFILES': 17, 'PREOPEN': 16}, 'thorough': {'K': 3, 'NFILES': 17, 'PREOPEN': 16}},
-     'expect_reach': ['end', 'table-full', 'hopped', 'switched', 'revisited', 'deleted', 'evicted'], 'timeout': {'quick': 280, 'thorough': 900}},
+     'expect_reach': ['end', 'table-full', 'hopped', 'switched', 'revisited', 'deleted', 'evicted'], 'timeout': {'quick': 280, 'thorough': 600}},
 ]
 
 # ---------------------------------------------------------------- C10
@@ -166,16 +166,16 @@ META['C10'] = {
 JOBS['C10'] = [
     {'name': 'templates', 'harness': 'c10_re.c', 'units': ['rset', 'regex', 'sbuf', 'uc'], 'track': 're_rec',
      'defs': {'quick': {'LL': 2}, 'thorough': {'LL': 3, 'WIDE': 1}}, 'variants': [{'TSET': i} for i in range(5)],
-     'expect_reach': ['end', 'found', 'notfound', 'agree'], 'timeout': {'quick': 280, 'thorough': 900}, 'max_steps': 5000000},
+     'expect_reach': ['end', 'found', 'notfound', 'agree'], 'timeout': {'quick': 280, 'thorough': 600}, 'max_steps': 5000000},
     {'name': 'multibyte', 'harness': 'c10_re.c', 'units': ['rset', 'regex', 'sbuf', 'uc'], 'track': 're_rec',
      'defs': {'quick': {'LL': 2, 'MB': 1}, 'thorough': {'LL': 3, 'MB': 1}}, 'variants': [{'TSET': 0}, {'TSET': 1}],
-     'expect_reach': ['end', 'found', 'notfound', 'agree'], 'timeout': {'quick': 280, 'thorough': 900}, 'max_steps': 5000000},
+     'expect_reach': ['end', 'found', 'notfound', 'agree'], 'timeout': {'quick': 280, 'thorough': 600}, 'max_steps': 5000000},
     {'name': 'open_bounds', 'harness': 'c10_re.c', 'units': ['rset', 'regex', 'sbuf', 'uc'], 'track': 're_rec',
      'defs': {'quick': {'LL': 3, 'TSET': 6}, 'thorough': {'LL': 4, 'TSET': 6}},
-     'expect_reach': ['end', 'found', 'notfound', 'agree'], 'timeout': {'quick': 280, 'thorough': 900}, 'max_steps': 5000000},
+     'expect_reach': ['end', 'found', 'notfound', 'agree'], 'timeout': {'quick': 280, 'thorough': 600}, 'max_steps': 5000000},
     {'name': 'nullable_loops', 'harness': 'c10_re.c', 'units': ['rset', 'regex', 'sbuf', 'uc'], 'track': 're_rec', 'tiers': ['thorough'],
      'defs': {'LL': 1, 'TSET': 5},
-     'expect_reach': ['end', 'found', 'notfound'], 'timeout': {'quick': 280, 'thorough': 900}, 'max_steps': 200000000, 'native_timeout': 60},
+     'expect_reach': ['end', 'found', 'notfound'], 'timeout': {'quick': 280, 'thorough': 600}, 'max_steps': 200000000, 'native_timeout': 60},
 ]
 
 # ---------------------------------------------------------------- C14
@@ -188,7 +188,7 @@ META['C14'] = {
 JOBS['C14'] = [
     {'name': 'substitute', 'harness': 'c14_sub.c', 'units': 'ALL',
      'defs': {'quick': {'LL': 2, 'NP': 2}, 'thorough': {'LL': 3, 'NP': 2, 'SYMIC': 1, 'MAXREF': 3}}, 'variants': [{'TSET': 0}, {'TSET': 1}, {'TSET': 2}],
-     'expect_reach': ['end', 'match'], 'timeout': {'quick': 280, 'thorough': 900}},
+     'expect_reach': ['end', 'match'], 'timeout': {'quick': 280, 'thorough': 600}},
 ]
 
 # ---------------------------------------------------------------- C13
@@ -201,9 +201,9 @@ META['C13'] = {
 JOBS['C13'] = [
     {'name': 'lbuf_search', 'harness': 'c13_search.c', 'units': ['lbuf', 'mot', 'sbuf', 'uc', 'rstr', 'rset', 'regex'],
      'defs': {'quick': {'LL': 2, 'NLN': 2}, 'thorough': {'LL': 3, 'NLN': 2, 'SYMIC': 1}},
-     'expect_reach': ['end', 'found', 'notfound'], 'timeout': {'quick': 280, 'thorough': 900}},
+     'expect_reach': ['end', 'found', 'notfound'], 'timeout': {'quick': 280, 'thorough': 600}},
     {'name': 'vi_search_sequences', 'harness': 'c13_vi.c', 'units': 'ALL', 'defs': {'quick': {'K': 2}, 'thorough': {'K': 3}}, 'expect_reach': ['end'],
-     'timeout': {'quick': 280, 'thorough': 900}, 'max_steps': 60000000, 'validate': {'quick': 6, 'thorough': 12}},
+     'timeout': {'quick': 280, 'thorough': 600}, 'max_steps': 60000000, 'validate': {'quick': 6, 'thorough': 12}},
     {'name': 'lbuf_search_3', 'harness': 'c13_search.c', 'units': ['lbuf', 'mot', 'sbuf', 'uc', 'rstr', 'rset', 'regex'], 'tiers': ['quick'],
      'defs': {'LL': 3, 'NLN': 2, 'TMASK': '0x13'},
      'expect_reach': ['end', 'found', 'notfound'], 'timeout': 280},
@@ -219,10 +219,10 @@ META['C15'] = {
 JOBS['C15'] = [
     {'name': 'global', 'harness': 'c15_glob.c', 'units': 'ALL',
      'defs': {'quick': {'NL': 5}, 'thorough': {'NL': 6}},
-     'expect_reach': ['end', 'visit', 'abort', 'changed'], 'timeout': {'quick': 280, 'thorough': 900}},
+     'expect_reach': ['end', 'visit', 'abort', 'changed'], 'timeout': {'quick': 280, 'thorough': 600}},
     {'name': 'global_table_growth', 'harness': 'c15_glob.c', 'units': 'ALL',
      'defs': {'quick': {'NL': 509, 'BIG': 1}, 'thorough': {'NL': 1021, 'BIG': 1}},
-     'expect_reach': ['end', 'visit', 'changed'], 'timeout': {'quick': 280, 'thorough': 900}, 'max_steps': 400000000},
+     'expect_reach': ['end', 'visit', 'changed'], 'timeout': {'quick': 280, 'thorough': 600}, 'max_steps': 400000000},
 ]
 
 # ---------------------------------------------------------------- C06
@@ -235,7 +235,7 @@ META['C06'] = {
 JOBS['C06'] = [
     {'name': 'line_commands', 'harness': 'c06_ex.c', 'units': 'ALL',
      'defs': {'quick': {'NL': 3}, 'thorough': {'NL': 4}},
-     'expect_reach': ['end', 'applied', 'rejected'], 'timeout': {'quick': 280, 'thorough': 900}},
+     'expect_reach': ['end', 'applied', 'rejected'], 'timeout': {'quick': 280, 'thorough': 600}},
 ]
 
 # ---------------------------------------------------------------- C17 / C18
@@ -248,13 +248,13 @@ META['C17'] = {
 }
 JOBS['C17'] = [
     {'name': 'layout', 'harness': 'c17_ren.c', 'units': _ren_units, 'defs': {'quick': {'LL': 3, 'ORDER': 0}, 'thorough': {'LL': 4, 'ORDER': 0}},
-     'expect_reach': ['end'], 'timeout': {'quick': 280, 'thorough': 900}},
+     'expect_reach': ['end'], 'timeout': {'quick': 280, 'thorough': 600}},
     {'name': 'layout_reorder', 'harness': 'c17_ren.c', 'units': _ren_units, 'defs': {'quick': {'LL': 2}, 'thorough': {'LL': 3}},
-     'variants': [{'ORDER': 1}, {'ORDER': 2}], 'expect_reach': ['end', 'reorder-path'], 'timeout': {'quick': 280, 'thorough': 900}},
+     'variants': [{'ORDER': 1}, {'ORDER': 2}], 'expect_reach': ['end', 'reorder-path'], 'timeout': {'quick': 280, 'thorough': 600}},
     {'name': 'layout_ltr_runs_in_rtl', 'harness': 'c17_ren.c', 'units': _ren_units, 'defs': {'quick': {'LL': 4, 'ORDER': 2, 'RTLCTX': 1}, 'thorough': {'LL': 5, 'ORDER': 2, 'RTLCTX': 1}},
-     'expect_reach': ['end', 'reorder-path'], 'timeout': {'quick': 280, 'thorough': 900}},
+     'expect_reach': ['end', 'reorder-path'], 'timeout': {'quick': 280, 'thorough': 600}},
     _motions_rtl,	# h and l in a right-to-left line: the character displayed to the left / right (the harness of C07)
-    {'name': 'width_tables', 'harness': 'c17_tab.c', 'units': [], 'defs': {}, 'expect_reach': ['end'], 'timeout': {'quick': 280, 'thorough': 900}},
+    {'name': 'width_tables', 'harness': 'c17_tab.c', 'units': [], 'defs': {}, 'expect_reach': ['end'], 'timeout': {'quick': 280, 'thorough': 600}},
 ]
 META['C18'] = {
     'bounds': {'quick': 'all lines of <=4 characters over {Latin, digit, blank, -, Arabic BEH, Arabic ALEF, ZWNJ} (and, permutation only, with the mark characters $ \\\\ { } [ ] *) x td -2..2: permutation, newline last, runs reversed in place; a nested mark \\*[...] inside a right-to-left line and in front of a right-to-left word in a left-to-right line; columns derived from the permutation for lines of <=4 characters in right-to-left context (Latin runs with TAB / wide characters) tile the line; shaping: previous/current/next over the whole joining-letter table or a non-letter or nothing, 0..2 diacritics on either side',
@@ -264,18 +264,18 @@ META['C18'] = {
 }
 JOBS['C18'] = [
     {'name': 'reorder', 'harness': 'c18_dir.c', 'units': _ren_units, 'defs': {'quick': {'LL': 4}, 'thorough': {'LL': 5}},
-     'expect_reach': ['end', 'reversed'], 'timeout': {'quick': 280, 'thorough': 900}},
+     'expect_reach': ['end', 'reversed'], 'timeout': {'quick': 280, 'thorough': 600}},
     {'name': 'reorder_marks', 'harness': 'c18_dir.c', 'units': _ren_units, 'defs': {'quick': {'LL': 4, 'MARKS': 1}, 'thorough': {'LL': 5, 'MARKS': 1}},
-     'heavy': True, 'expect_reach': ['end', 'marks'], 'timeout': {'quick': 280, 'thorough': 900}},
+     'heavy': True, 'expect_reach': ['end', 'marks'], 'timeout': {'quick': 280, 'thorough': 600}},
     {'name': 'reorder_nested_mark', 'harness': 'c18_dir.c', 'units': _ren_units, 'defs': {'NESTED': 1},
-     'expect_reach': ['end', 'nested', 'nested-ltr'], 'timeout': {'quick': 280, 'thorough': 900}},
+     'expect_reach': ['end', 'nested', 'nested-ltr'], 'timeout': {'quick': 280, 'thorough': 600}},
     # the columns derived from the permutation (ren_position_reorder: inverse permutation, prefix sums of widths) tile the line:
     # Latin runs holding a TAB or a wide character inside a right-to-left line (the harness of C17)
     {'name': 'positions_of_reordered_runs', 'harness': 'c17_ren.c', 'units': _ren_units,
      'defs': {'quick': {'LL': 4, 'ORDER': 2, 'RTLCTX': 1}, 'thorough': {'LL': 5, 'ORDER': 2, 'RTLCTX': 1}},
-     'expect_reach': ['end', 'reorder-path'], 'timeout': {'quick': 280, 'thorough': 900}},
+     'expect_reach': ['end', 'reorder-path'], 'timeout': {'quick': 280, 'thorough': 600}},
     {'name': 'shaping', 'harness': 'c18_shape.c', 'units': [], 'defs': {},
-     'expect_reach': ['end', 'medial', 'final', 'initial', 'isolated', 'nonletter'], 'timeout': {'quick': 280, 'thorough': 900}},
+     'expect_reach': ['end', 'medial', 'final', 'initial', 'isolated', 'nonletter'], 'timeout': {'quick': 280, 'thorough': 600}},
 ]
 
 # ---------------------------------------------------------------- C05
@@ -289,18 +289,18 @@ META['C05'] = {
 _c05_cfg = [(b, w, i) for b in (0, 1, 2, 3) for (w, i) in ((0, 0), (1, 1), (2, 2), (3, 3), (0, 4))]
 JOBS['C05'] = [
     {'name': 'vi_keys2', 'harness': 'c05_vi.c', 'units': 'ALL', 'defs': {'NK': 2, 'BUF': 2, 'WIN': 0, 'INIT': 0}, 'heavy': True,
-     'expect_reach': ['end'], 'timeout': {'quick': 280, 'thorough': 900}, 'max_steps': 40000000, 'validate': {'quick': 6, 'thorough': 12}},
+     'expect_reach': ['end'], 'timeout': {'quick': 280, 'thorough': 600}, 'max_steps': 40000000, 'validate': {'quick': 6, 'thorough': 12}},
     {'name': 'vi_keys1', 'harness': 'c05_vi.c', 'units': 'ALL', 'defs': {'NK': 1},
      'variants': [{'BUF': b, 'WIN': w, 'INIT': i} for (b, w, i) in _c05_cfg],
-     'expect_reach': ['end'], 'timeout': {'quick': 280, 'thorough': 900}, 'max_steps': 40000000, 'validate': {'quick': 2, 'thorough': 4}},
+     'expect_reach': ['end'], 'timeout': {'quick': 280, 'thorough': 600}, 'max_steps': 40000000, 'validate': {'quick': 2, 'thorough': 4}},
     {'name': 'ex_lines', 'harness': 'c05_ex.c', 'units': 'ALL', 'defs': {'quick': {'NB': 2, 'BUF': 2}, 'thorough': {'NB': 3, 'BUF': 2}},
-     'expect_reach': ['end'], 'timeout': {'quick': 280, 'thorough': 900}},
+     'expect_reach': ['end'], 'timeout': {'quick': 280, 'thorough': 600}},
     {'name': 'vi_prompt_history', 'harness': 'c05_hist.c', 'units': 'ALL', 'defs': {'quick': {}, 'thorough': {'LEN_LO': 50, 'LEN_HI': 70}}, 'expect_reach': ['end'], 'max_steps': 40000000,
-     'timeout': {'quick': 280, 'thorough': 900}, 'validate': {'quick': 4, 'thorough': 8}},
+     'timeout': {'quick': 280, 'thorough': 600}, 'validate': {'quick': 4, 'thorough': 8}},
     {'name': 'ex_pairs', 'harness': 'c05_ex.c', 'units': 'ALL', 'defs': {'MODE': 2, 'BUF': 1},
-     'variants': [{'BUF': 0}, {'BUF': 2}], 'expect_reach': ['end'], 'timeout': {'quick': 280, 'thorough': 900}},
+     'variants': [{'BUF': 0}, {'BUF': 2}], 'expect_reach': ['end'], 'timeout': {'quick': 280, 'thorough': 600}},
     {'name': 'ex_limit', 'harness': 'c05_ex.c', 'units': 'ALL', 'defs': {'MODE': 1, 'BUF': 1},
-     'expect_reach': ['end'], 'timeout': {'quick': 280, 'thorough': 900}},
+     'expect_reach': ['end'], 'timeout': {'quick': 280, 'thorough': 600}},
 ]
 
 # ---------------------------------------------------------------- C19
@@ -312,17 +312,17 @@ META['C19'] = {
 }
 JOBS['C19'] = [
     {'name': 'screen', 'harness': 'c19_screen.c', 'units': 'ALL', 'defs': {'quick': {'N': 2}, 'thorough': {'N': 3}},
-     'variants': [{'BUF': 1}, {'BUF': 2}, {'BUF': 3}], 'expect_reach': ['end'], 'timeout': {'quick': 280, 'thorough': 1200}, 'max_steps': 60000000,
+     'variants': [{'BUF': 1}, {'BUF': 2}, {'BUF': 3}], 'expect_reach': ['end'], 'timeout': {'quick': 280, 'thorough': 600}, 'max_steps': 60000000,
      'validate': {'quick': 6, 'thorough': 12}},
     {'name': 'screen_small', 'harness': 'c19_screen.c', 'units': 'ALL', 'defs': {'N': 1},
      'variants': [{'BUF': 0}, {'BUF': 2, 'ROWS': 4, 'COLS': 10}, {'BUF': 3, 'ROWS': 4, 'COLS': 10}], 'expect_reach': ['end'],
-     'timeout': {'quick': 280, 'thorough': 900}, 'max_steps': 60000000, 'validate': {'quick': 4, 'thorough': 8}},
+     'timeout': {'quick': 280, 'thorough': 600}, 'max_steps': 60000000, 'validate': {'quick': 4, 'thorough': 8}},
     {'name': 'screen_split', 'harness': 'c19_screen.c', 'units': 'ALL', 'defs': {'quick': {'N': 2}, 'thorough': {'N': 3}},
      'variants': [{'BUF': 5, 'ROWS': 12}], 'expect_reach': ['end'],
-     'timeout': {'quick': 280, 'thorough': 1200}, 'max_steps': 60000000, 'validate': {'quick': 4, 'thorough': 8}},
+     'timeout': {'quick': 280, 'thorough': 600}, 'max_steps': 60000000, 'validate': {'quick': 4, 'thorough': 8}},
     {'name': 'screen_rtl', 'harness': 'c19_screen.c', 'units': 'ALL', 'defs': {'quick': {'N': 2}, 'thorough': {'N': 3}},
      'variants': [{'BUF': 4}], 'expect_reach': ['end'],
-     'timeout': {'quick': 280, 'thorough': 1200}, 'max_steps': 60000000, 'validate': {'quick': 4, 'thorough': 8}},
+     'timeout': {'quick': 280, 'thorough': 600}, 'max_steps': 60000000, 'validate': {'quick': 4, 'thorough': 8}},
 ]
 
 # ---------------------------------------------------------------- C09
@@ -335,11 +335,11 @@ META['C09'] = {
 JOBS['C09'] = [
     {'name': 'push_queue', 'harness': 'c09_push.c', 'units': ['term', 'sbuf'], 'defs': {}, 'expect_reach': ['end', 'overflow-checked']},
     {'name': 'repeat_vs_retype', 'harness': 'c09_rel.c', 'units': 'ALL', 'defs': {'quick': {'MODE': 0}, 'thorough': {'MODE': 0, 'NCNT': 3, 'TXTN': 2, 'JUNKALL': 1}}, 'expect_reach': ['end'],
-     'timeout': {'quick': 280, 'thorough': 900}, 'max_steps': 80000000, 'validate': {'quick': 6, 'thorough': 12}},
+     'timeout': {'quick': 280, 'thorough': 600}, 'max_steps': 80000000, 'validate': {'quick': 6, 'thorough': 12}},
     {'name': 'repeat_long_insert', 'harness': 'c09_rel.c', 'units': 'ALL', 'defs': {'MODE': 2}, 'expect_reach': ['end'],
-     'timeout': {'quick': 280, 'thorough': 900}, 'max_steps': 400000000, 'validate': {'quick': 2, 'thorough': 4}, 'native_timeout': 60},
+     'timeout': {'quick': 280, 'thorough': 600}, 'max_steps': 400000000, 'validate': {'quick': 2, 'thorough': 4}, 'native_timeout': 60},
     {'name': 'execute_vs_type', 'harness': 'c09_rel.c', 'units': 'ALL', 'defs': {'MODE': 1}, 'expect_reach': ['end'],
-     'timeout': {'quick': 280, 'thorough': 900}, 'max_steps': 80000000, 'validate': {'quick': 6, 'thorough': 12}},
+     'timeout': {'quick': 280, 'thorough': 600}, 'max_steps': 80000000, 'validate': {'quick': 6, 'thorough': 12}},
 ]
 
 # ---------------------------------------------------------------- C08
@@ -351,13 +351,13 @@ META['C08'] = {
 }
 JOBS['C08'] = [
     {'name': 'equivalent_keys', 'harness': 'c08_rel.c', 'units': 'ALL', 'defs': {'quick': {'MODE': 0}, 'thorough': {'MODE': 0, 'SYMBUF': 1}}, 'expect_reach': ['end'], 'heavy': True,
-     'timeout': {'quick': 280, 'thorough': 900}, 'max_steps': 80000000, 'validate': {'quick': 6, 'thorough': 12}},
+     'timeout': {'quick': 280, 'thorough': 600}, 'max_steps': 80000000, 'validate': {'quick': 6, 'thorough': 12}},
     {'name': 'delete_vs_yank_put', 'harness': 'c08_rel.c', 'units': 'ALL', 'defs': {'quick': {'MODE': 1}, 'thorough': {'MODE': 1, 'SYMBUF': 1}}, 'expect_reach': ['end', 'removed'], 'heavy': True,
-     'timeout': {'quick': 280, 'thorough': 900}, 'max_steps': 80000000, 'validate': {'quick': 6, 'thorough': 12}},
+     'timeout': {'quick': 280, 'thorough': 600}, 'max_steps': 80000000, 'validate': {'quick': 6, 'thorough': 12}},
     {'name': 'delete_regions', 'harness': 'c07_mot.c', 'units': 'ALL', 'defs': {'quick': {'NMOT': 39, 'OPER': 1}, 'thorough': {'LL': 2, 'NMOT': 39, 'SYMTEXT': 1, 'NCNT': 3, 'OPER': 1}}, 'heavy': True,
-     'expect_reach': ['end', 'asserted', 'failed-motion'], 'timeout': {'quick': 290, 'thorough': 1200}, 'max_steps': 60000000, 'validate': {'quick': 8, 'thorough': 16}},
+     'expect_reach': ['end', 'asserted', 'failed-motion'], 'timeout': {'quick': 290, 'thorough': 600}, 'max_steps': 60000000, 'validate': {'quick': 8, 'thorough': 16}},
     {'name': 'registers_autoindent', 'harness': 'c08_rel.c', 'units': 'ALL', 'defs': {'MODE': 2}, 'expect_reach': ['end'],
-     'timeout': {'quick': 280, 'thorough': 900}, 'max_steps': 80000000, 'validate': {'quick': 4, 'thorough': 8}},
+     'timeout': {'quick': 280, 'thorough': 600}, 'max_steps': 80000000, 'validate': {'quick': 4, 'thorough': 8}},
 ]
 
 # ---------------------------------------------------------------- C07
@@ -370,16 +370,16 @@ META['C07'] = {
 JOBS['C07'] = [
     # the same with the order option on (multi-byte lines then take the reordering path of ren_position): column motions on the buffer with a wide character and a tab
     {'name': 'motions_order_on', 'harness': 'c07_mot.c', 'units': 'ALL', 'defs': {'NMOT': 39, 'ORDERON': 1, 'BUFSEL': 1, 'MOTMASK': '0x70000000f3ULL'},
-     'expect_reach': ['end', 'asserted'], 'timeout': {'quick': 290, 'thorough': 900}, 'max_steps': 60000000, 'validate': {'quick': 4, 'thorough': 8}},
+     'expect_reach': ['end', 'asserted'], 'timeout': {'quick': 290, 'thorough': 600}, 'max_steps': 60000000, 'validate': {'quick': 4, 'thorough': 8}},
     _motions_rtl,
     {'name': 'motions', 'harness': 'c07_mot.c', 'units': 'ALL', 'defs': {'quick': {'NMOT': 39}, 'thorough': {'LL': 2, 'NMOT': 39, 'SYMTEXT': 1, 'NCNT': 3}}, 'heavy': True,
-     'expect_reach': ['end', 'asserted'], 'timeout': {'quick': 290, 'thorough': 1200}, 'max_steps': 60000000, 'validate': {'quick': 8, 'thorough': 16}},
+     'expect_reach': ['end', 'asserted'], 'timeout': {'quick': 290, 'thorough': 600}, 'max_steps': 60000000, 'validate': {'quick': 8, 'thorough': 16}},
 ]
 
 # ---------------------------------------------------------------- CBMC cross-checks on leaf kernels (C source, SAT back end)
 CBMC['C16'] = [{'name': 'uc_decoders', 'harness': 'cbmc/cb_uc.c', 'units': ['uc'], 'function': 'cb_uc',
-                'defs': {'quick': {'N': 5}, 'thorough': {'N': 6}}, 'unwind': {'quick': 7, 'thorough': 8}, 'timeout': {'quick': 250, 'thorough': 900}}]
+                'defs': {'quick': {'N': 5}, 'thorough': {'N': 6}}, 'unwind': {'quick': 7, 'thorough': 8}, 'timeout': {'quick': 250, 'thorough': 600}}]
 CBMC['C17'] = [{'name': 'range_table_bisection', 'harness': 'cbmc/cb_find.c', 'units': [], 'function': 'cb_find',
-                'defs': {}, 'unwind': 400, 'tiers': ['thorough'], 'timeout': {'quick': 250, 'thorough': 1200}}]
+                'defs': {}, 'unwind': 400, 'tiers': ['thorough'], 'timeout': {'quick': 250, 'thorough': 600}}]
 CBMC['C01'] = [{'name': 'sbuf_capacity_step', 'harness': 'cbmc/cb_sbuf.c', 'units': [], 'function': 'cb_sbuf',
-                'defs': {}, 'unwind': 2, 'timeout': {'quick': 250, 'thorough': 900}}]
+                'defs': {}, 'unwind': 2, 'timeout': {'quick': 250, 'thorough': 600}}]
